@@ -29,9 +29,13 @@ PARTIAL = ['C02_parse_unparse_partial / C02_items_simulation_partial / C02_white
            'C02_tree_whitespace_irrelevant2_partial: the same for the EXTENDED grammar of coq/Doc/DocGrammar2.v = the core '
            'grammar plus (e1) environments \\begin{name} args body \\end{name} (known to the context or covered by its '
            'unknown-environment fallback, mandatory brace arguments, body in math mode when declared so, whitespace allowed '
-           'between \\begin / \\end and the brace), (e3) the specials sequences of the context (longest match, with mandatory '
-           'brace arguments if declared). '
-           'NOT covered by any theorem (only by the differential correspondence and the structure oracle): ' + """a paragraph break followed by indentation or written directly after a control word / comment, a comment ending at the end of input, optional star / bracket arguments, single-token arguments, whitespace or comments before an argument, verbatim (\\verb, verbatim environments, verbatim argument kind)"""]
+           'between \\begin / \\end and the brace), (e3) the specials sequences of the context (longest match, with arguments if '
+           'declared), (e4) arguments per slot of the declared signature: braced group with whitespace in front where the '
+           'slot allows it, delimited argument [..] (any single-character delimiter pair) written or - when optional - absent, '
+           'marker character * written or absent; side conditions: an absent argument is not followed (after whitespace) by '
+           'its opening character, the two delimiter characters are not text directly in the body of a delimited argument, '
+           'at most 8*(length of the call token)-4 absent arguments per call (the fuel of the model). '
+           'NOT covered by any theorem (only by the differential correspondence and the structure oracle): ' + """a paragraph break followed by indentation or written directly after a control word / comment, a comment ending at the end of input, single-token arguments, comments before an argument, a delimited argument written directly (not inside braces) in the body of another delimited argument, verbatim (\\verb, verbatim environments, verbatim argument kind)"""]
 REFUTED = []
 CASE_TIMEOUT = 10.0
 case_from_desc = None
